@@ -755,3 +755,180 @@ impl SubCheck for C10Sub {
         Verdict::pass(nt, cl)
     }
 }
+
+// ---------------------------------------------------------------------------
+// C10 at the end of the representable time range: periodic series whose
+// occurrences approach MonotonicTime::MAX. Every t0 + k*p that is representable
+// (<= MAX) fires exactly once, nothing panics, and a series simply ends when its
+// next occurrence is not representable.
+
+#[derive(Clone, Debug, serde::Serialize, serde::Deserialize)]
+pub struct C10EdgeCase {
+    /// the simulation starts this many ns before MonotonicTime::MAX
+    pub headroom: u64,
+    /// (first deadline as an offset from the start (>= 1), period ns, keyed)
+    pub series: Vec<(u64, u64, bool)>,
+    /// true: drive with step() only; false: step_until(MAX)
+    pub steps: bool,
+    pub exec: Exec,
+}
+
+pub struct C10EdgeSub {
+    pub mt: Option<u8>,
+}
+
+/// One-model simulation driven through the public API (no RefSim: closed form).
+struct EdgeModel {
+    log: std::sync::Arc<std::sync::Mutex<Vec<(u8, nexosim::time::MonotonicTime)>>>,
+}
+impl EdgeModel {
+    fn on(&mut self, s: u8, cx: &mut nexosim::model::Context<Self>) {
+        self.log.lock().unwrap().push((s, cx.time()));
+    }
+}
+impl nexosim::model::Model for EdgeModel {}
+
+impl SubCheck for C10EdgeSub {
+    type Case = C10EdgeCase;
+    fn name(&self) -> &'static str {
+        if self.mt.is_some() {
+            "c10-time-range-mt"
+        } else {
+            "c10-time-range-st"
+        }
+    }
+    fn substrate(&self) -> &'static str {
+        if self.mt.is_some() {
+            "MT-delay"
+        } else {
+            "ST-pick"
+        }
+    }
+    fn strategy(&self) -> BoxedStrategy<C10EdgeCase> {
+        let exec = match self.mt {
+            Some(t) => mt_exec_strategy(t),
+            None => st_exec_strategy(),
+        };
+        (
+            5u64..80,
+            proptest::collection::vec((1u64..40, prop_oneof![4 => 1u64..13, 1 => 13u64..200], any::<bool>()), 1..4),
+            any::<bool>(),
+            exec,
+        )
+            .prop_map(|(headroom, series, steps, exec)| C10EdgeCase {
+                headroom,
+                series,
+                steps,
+                exec,
+            })
+            .boxed()
+    }
+    fn eval(&self, c: &C10EdgeCase) -> Verdict {
+        use nexosim::simulation::{Mailbox, SimInit};
+        use nexosim::time::MonotonicTime;
+        use std::time::Duration;
+        let fail = |clause: &str, detail: String| Verdict::Fail {
+            signature: format!("C10/{}", clause),
+            clause: clause.to_string(),
+            detail,
+            props: &["C10", "C08"],
+        };
+        let max = MonotonicTime::MAX;
+        let start = max.checked_sub(Duration::from_nanos(c.headroom)).unwrap();
+        let log = std::sync::Arc::new(std::sync::Mutex::new(Vec::new()));
+        let mb: Mailbox<EdgeModel> = Mailbox::new();
+        let addr = mb.address();
+        let init = match &c.exec {
+            Exec::St { .. } => SimInit::with_num_threads(1),
+            Exec::Mt { threads, .. } => SimInit::with_num_threads((*threads).max(2) as usize),
+        };
+        let r = std::panic::catch_unwind(std::panic::AssertUnwindSafe(|| {
+            let (mut sim, sched) = match init.add_model(EdgeModel { log: log.clone() }, mb, "edge").init(start) {
+                Ok(x) => x,
+                Err(e) => return Err(format!("init failed: {:?}", classify(&e))),
+            };
+            let mut keys = Vec::new();
+            let mut accepted = Vec::new();
+            for (i, (off, p, keyed)) in c.series.iter().enumerate() {
+                let off = (*off).max(1);
+                if off > c.headroom {
+                    continue; // first deadline not representable: the request cannot even be expressed
+                }
+                let dl = start + Duration::from_nanos(off);
+                let ok = if *keyed {
+                    sched
+                        .schedule_keyed_periodic_event(dl, Duration::from_nanos((*p).max(1)), EdgeModel::on, i as u8, &addr)
+                        .map(|k| keys.push(k))
+                        .is_ok()
+                } else {
+                    sched.schedule_periodic_event(dl, Duration::from_nanos((*p).max(1)), EdgeModel::on, i as u8, &addr).is_ok()
+                };
+                if !ok {
+                    return Err(format!("series {} (first deadline start+{} ns, period {} ns) was rejected", i, off, p));
+                }
+                accepted.push(i);
+            }
+            if c.steps {
+                // at most headroom+1 distinct instants remain
+                let mut last = sim.time();
+                for _ in 0..(c.headroom + 3) {
+                    if let Err(e) = sim.step() {
+                        return Err(format!("step failed: {:?}", classify(&e)));
+                    }
+                    let now = sim.time();
+                    if now < last {
+                        return Err(format!("time went backwards: {:?} -> {:?}", last, now));
+                    }
+                    last = now;
+                }
+            } else if let Err(e) = sim.step_until(max) {
+                return Err(format!("step_until(MAX) failed: {:?}", classify(&e)));
+            }
+            drop(keys);
+            Ok(accepted)
+        }));
+        let accepted = match r {
+            Err(_) => return fail("call-panicked", "a scheduling or stepping call panicked near the end of the time range".into()),
+            Ok(Err(e)) => return fail("time-range", e),
+            Ok(Ok(a)) => a,
+        };
+        let mut got: Vec<(u8, u64)> = log
+            .lock()
+            .unwrap()
+            .iter()
+            .map(|(s, t)| (*s, c.headroom - max.duration_since(*t).as_nanos() as u64))
+            .collect();
+        got.sort();
+        let mut exp: Vec<(u8, u64)> = Vec::new();
+        let mut at_max = false;
+        for i in accepted {
+            let (off, p, _) = c.series[i];
+            let mut t = off.max(1);
+            while t <= c.headroom {
+                exp.push((i as u8, t));
+                if t == c.headroom {
+                    at_max = true;
+                }
+                t += p.max(1);
+            }
+        }
+        exp.sort();
+        if got != exp {
+            return fail(
+                "periodic-arithmetic-progression",
+                format!(
+                    "start = MAX-{} ns: occurrences (series, offset from start) fired {:?}, expected every t0+k*p <= MAX: {:?}",
+                    c.headroom, got, exp
+                ),
+            );
+        }
+        let mut cl = Vec::new();
+        if at_max {
+            cl.push("occurrence-exactly-at-MAX");
+        }
+        if exp.len() >= 5 {
+            cl.push(">=5-occurrences");
+        }
+        Verdict::pass(at_max, cl)
+    }
+}
